@@ -60,6 +60,8 @@ theorem compareLex_ident : ∀ a b : List Ident, List.compareLex Ident.rs_cmp a 
   have : Ident.rs_cmp = cmpIdent := by funext a b; exact Ident_cmp a b
   intro a b; rw [this]
 
+theorem vec_len (l : List Ident) : Rust.len l = l.length := rfl
+
 theorem Version_cmp (a b : Version) : Version.rs_cmp a b = cmpVersion a b := by
   unfold Version.rs_cmp cmpVersion
   simp only [compareLex, compareOn, ROrd.cmp, Id.run]
@@ -67,7 +69,7 @@ theorem Version_cmp (a b : Version) : Version.rs_cmp a b = cmpVersion a b := by
   cases h2 : compare a.minor b.minor <;> simp
   cases h3 : compare a.patch b.patch <;> simp
   rcases hp : a.pre with _ | ⟨x, xs⟩ <;> rcases hq : b.pre with _ | ⟨y, ys⟩ <;>
-    simp [Rust.len, cmpPre, compareLex_ident]
+    simp [vec_len, cmpPre, compareLex_ident]
 
 theorem Version_hash (v : Version) : v.rs_hash = v.hashKey := rfl
 
